@@ -19,10 +19,19 @@ class AnalysisError(Exception):
 
 
 class Module:
-    def __init__(self, name, relpath, src):
+    def __init__(self, name, relpath, src, reuse=None):
         self.name = name
         self.relpath = relpath
         self.src = src
+        if reuse is not None and reuse.src == src:
+            # unchanged file of a variant: share the (read-only) tree
+            self.lines = reuse.lines
+            self.tree = reuse.tree
+            self.imports = {}
+            self.funcs = {}
+            self.classes = {}
+            self.assigns = {}
+            return
         self.lines = src.splitlines()
         self.tree = ast.parse(src, filename=relpath)
         self.imports = {}      # local name -> ('mod', dotted) | ('sym', dotted_module, symbol)
@@ -77,7 +86,7 @@ class ClassInfo:
 
 
 class Program:
-    def __init__(self, sources, root='<memory>'):
+    def __init__(self, sources, root='<memory>', reuse=None):
         self.root = root
         self.sources = sources
         self.modules = {}
@@ -89,7 +98,8 @@ class Program:
                 continue
             name = _modname(relpath)
             try:
-                mod = Module(name, relpath, sources[relpath])
+                mod = Module(name, relpath, sources[relpath],
+                             reuse.modules.get(name) if reuse is not None else None)
             except SyntaxError as ex:
                 raise AnalysisError('cannot parse %s: %s' % (relpath, ex))
             self.modules[name] = mod
